@@ -45,7 +45,6 @@ def batches(ctx):
                         "ORDERED": "TRUE" if ordered else "FALSE", "TOPOS": tla_set(topos), "BIGTOPOS": tla_set(big)})
     if ctx.quick:
         return [
-            b("topo M=2 2x2", ["topo"], names=("N1", "N2"), keys=("K1", "K2"), m=2),
             b("kind", ["kind"], topos=["line3", "line4", "rollover", "shared", "loop", "akidtrap", "badsig"],
               big=["rollover4"]),
             b("window+name", ["window", "name"], topos=["line3", "rollover", "badsig", "shared"]),
@@ -53,8 +52,6 @@ def batches(ctx):
             b("keyid", ["keyid"], topos=["line3", "akidtrap"]),
         ]
     return [
-        b("topo M=2 3x3", ["topo"], names=("N1", "N2", "N3"), keys=("K1", "K2", "K3"), m=2),
-        b("topo M=3 2x2", ["topo"], names=("N1", "N2"), keys=("K1", "K2"), m=3),
         b("kind", ["kind"], topos=ALL_TOPOS, big=BIG_TOPOS),
         b("window", ["window"], topos=ALL_TOPOS),
         b("name", ["name"], topos=["line3", "badsig"], big=["cross"]),
@@ -81,9 +78,10 @@ def judge(ctx, label, tag, timeout=3000):
         res["datebad"][m.group(1)].append(int(m.group(2)))
     for m in re.finditer(r'<<\s*"DRIFT",\s*(\d+)\s*>>', out):
         res["drift"].append(int(m.group(1)))
-    m = re.search(r'<<\s*"DATEVERDICT",\s*(TRUE|FALSE)', out)
+    m = re.search(r'<<\s*"DATEVERDICT",\s*(TRUE|FALSE),\s*(\{[^}]*\})', out)
     if m:
         res["dateok"] = m.group(1) == "TRUE"
+        res["okread"] = set(re.findall(r'"(\w+)"', m.group(2)))
     m = re.search(r'<<\s*"JUDGED",\s*(\d+),\s*(\d+),\s*(\d+)\s*>>', out)
     if m:
         res["judged"] = tuple(int(x) for x in m.groups())
@@ -139,8 +137,8 @@ def process(ctx, binary, label, tag, zero=False):
     if res["judged"][0] != st["calls"]:
         raise Machinery("%s: TLC judged %d observations, harness wrote %d" % (label, res["judged"][0], st["calls"]))
     out = {"label": label, "calls": st["calls"], "chains": res["judged"][1], "nonempty": res["judged"][2],
-           "cands": [], "notes": [], "drift": len(res["drift"]), "res": res}
-    if res["rejects"] or res["drift"] or not res["dateok"]:
+           "cands": [], "notes": [], "drift": len(res["drift"]), "okread": res["okread"], "datewit": {}}
+    if res["rejects"] or res["drift"] or res["datebad"]["open"] or res["datebad"]["closed"]:
         uni = {c["id"]: c for c in read_ndjson(U)}
         cases = read_ndjson(C)
         obs = read_ndjson(O)
@@ -162,31 +160,62 @@ def process(ctx, binary, label, tag, zero=False):
                                          "returned current=%s expired=%s never=%s err=%s"
                                          % (reason, o["api"], cs["mode"], cs["leaf"], cs["roots"], cs["inters"], o["t"],
                                             cs["usages"], cs["dns"], o["current"], o["expired"], o["never"], o["err"])})
-        if not res["dateok"]:
-            # no end-point convention explains every observation: replay one witness per convention
-            both = set(res["datebad"]["open"]) & set(res["datebad"]["closed"])
-            if both:
-                wit = [obs[min(both) - 1]]
-                kind = "date-class-wrong-under-every-reading"
-            else:
-                wit = [obs[min(res["datebad"]["open"]) - 1], obs[min(res["datebad"]["closed"]) - 1]]
-                kind = "date-class-inconsistent-end-points"
+        both = set(res["datebad"]["open"]) & set(res["datebad"]["closed"])
+        if both:
+            wit = [obs[min(both) - 1]]
+            kind = "date-class-wrong-under-every-reading"
             sig = {"kind": kind, "api": wit[0]["api"]}
             if zero:
                 sig["zero_current_time"] = True
             body = sub_case(uni, cases, wit)
             body["zero"] = zero
-            out["cands"].append({"sig": sig, "case": body,
-                                 "what": "%s: %s" % (kind, "; ".join(
-                                     "leaf %s t=%s current=%s expired=%s never=%s" %
-                                     (cases[o["case"] - 1]["leaf"], o["t"], o["current"], o["expired"], o["never"])
-                                     for o in wit))})
+            out["cands"].append({"sig": sig, "case": body, "what": "%s: %s" % (kind, describe_dates(cases, wit))})
+        # one witness per end-point convention this batch contradicts: the run as a whole must follow ONE
+        # convention (decided in run() over all batches)
+        for reading in ("open", "closed"):
+            if res["datebad"][reading]:
+                o = obs[min(res["datebad"][reading]) - 1]
+                out["datewit"][reading] = (sub_case(uni, cases, [o]), describe_dates(cases, [o]), o["api"])
         if res["drift"]:
             o = obs[res["drift"][0] - 1]
             out["notes"].append("MODEL-DRIFT property=C07 %s: %d of %d observations differ from the B layer's prediction "
                                 "(first: case %s t=%s current=%s expired=%s never=%s err=%s); the A layer is the judge"
                                 % (label, len(res["drift"]), st["calls"], json.dumps(cases[o["case"] - 1]), o["t"],
                                    o["current"], o["expired"], o["never"], o["err"]))
+    return out
+
+
+def describe_dates(cases, wit):
+    return "; ".join("leaf %s t=%s current=%s expired=%s never=%s" %
+                     (cases[o["case"] - 1]["leaf"], o["t"], o["current"], o["expired"], o["never"]) for o in wit)
+
+
+CHUNK = 40000
+
+
+def process_chunked(ctx, binary, label, tag):
+    """process() on chunks of at most CHUNK cases, judged in parallel (a TLC judge run is single-threaded)."""
+    U, C, O = files(ctx, tag)
+    cases = read_ndjson(C)
+    if len(cases) <= CHUNK:
+        return process(ctx, binary, label, tag)
+    jobs = []
+    for k in range(0, len(cases), CHUNK):
+        sub = "%s_%d" % (tag, k // CHUNK)
+        SU, SC, SO = files(ctx, sub)
+        shutil.copy(U, SU)
+        write_ndjson(SC, cases[k:k + CHUNK])
+        jobs.append(lambda sub=sub, k=k: process(ctx, binary, "%s [%d..]" % (label, k), sub))
+    parts = pkvlib.par(ctx, jobs)
+    out = parts[0]
+    for p in parts[1:]:
+        for f in ("calls", "chains", "nonempty", "drift"):
+            out[f] += p[f]
+        out["cands"] += p["cands"]
+        out["notes"] += p["notes"]
+        out["okread"] &= p["okread"]
+        for r, w in p["datewit"].items():
+            out["datewit"].setdefault(r, w)
     return out
 
 
@@ -220,6 +249,38 @@ def reproduce(ctx, binary, path, body=None):
     return bool(case.get("context")) and attempt(case["context"] + case["cases"])
 
 
+def mc_batches(ctx):
+    """(label, names, keys, M) of the model-checking runs of ChainBuilderMC.tla (U1: B => A over every PKI)."""
+    if ctx.quick:
+        return [("MC M<=2 2x2", ("N1", "N2"), ("K1", "K2"), 2)]
+    return [("MC M<=2 3x3", ("N1", "N2", "N3"), ("K1", "K2", "K3"), 2),
+            ("MC M<=3 2x2", ("N1", "N2"), ("K1", "K2"), 3)]
+
+
+def gen_mc(ctx, label, tag, names, keys, m):
+    """Model-check B => A on every PKI of the universe; the states TLC printed are the cases to replay."""
+    U, C, O = files(ctx, tag)
+    r = pkvlib.tlc(ctx, "ChainBuilderMC", "ChainBuilder_mc.cfg", workers=max(2, ctx.workers // 2), timeout=6000,
+                   expect_ok=False, label="B=>A " + label,
+                   subst={"NAMES": tla_set(names), "KEYS": tla_set(keys), "M": m, "OUTU": os.path.basename(U)})
+    if r.violated:
+        # a design-level result about the B model, never a verdict about the code; the cases printed so far are
+        # still replayed and judged by the A layer
+        raise Machinery("ChainBuilderMC %s: the B model violates %s (B layer out of date?):\n%s"
+                        % (label, r.violated, "\n".join(r.out.splitlines()[-40:])))
+    if r.rc != 0:
+        raise Machinery("TLC failed on ChainBuilderMC %s:\n%s" % (label, "\n".join(r.out.splitlines()[-30:])))
+    cases = [json.loads(json.loads(l)) for l in r.out.splitlines() if l.startswith('"{')]
+    if len(cases) != r.distinct or not cases:
+        raise Machinery("ChainBuilderMC %s printed %d states, TLC reports %d distinct" % (label, len(cases), r.distinct))
+    nontriv = sum(1 for c in cases if c.pop("nontrivial"))
+    bnonempty = sum(1 for c in cases if c.pop("bchains"))
+    if bnonempty == 0 or bnonempty == len(cases):
+        raise Machinery("ChainBuilderMC %s is vacuous: B returns chains in %d of %d PKIs" % (label, bnonempty, len(cases)))
+    write_ndjson(C, cases)
+    return len(cases), len(read_ndjson(U)), nontriv, bnonempty
+
+
 def gen(ctx, label, tag, subst):
     U, C, O = files(ctx, tag)
     subst = dict(subst, OUTU=os.path.basename(U), OUTC=os.path.basename(C))
@@ -232,16 +293,21 @@ def gen(ctx, label, tag, subst):
 
 
 def run(ctx):
+    if pkvlib.ONLY:
+        ctx.note("restricted development run: PKV_ONLY=%s" % ",".join(pkvlib.ONLY))
     binary = ctx.gobuild("c07")
     ctx.specfile("x")  # copy the specs before any worker thread starts
 
-    def pipeline(k, label, subst):
+    def pipeline(k, label, subst, mc=None):
         def job():
             tag = "b%d" % k
-            ncases, ncerts, nontriv, bnonempty = gen(ctx, label, tag, subst)
+            if mc:
+                ncases, ncerts, nontriv, bnonempty = gen_mc(ctx, label, tag, *mc)
+            else:
+                ncases, ncerts, nontriv, bnonempty = gen(ctx, label, tag, subst)
             ctx.log("%s: %d cases over %d certificates, %d non-trivial, B model returns chains in %d" %
                     (label, ncases, ncerts, nontriv, bnonempty))
-            out = process(ctx, binary, label, tag)
+            out = process_chunked(ctx, binary, label, tag)
             out.update(cases=ncases, nontrivial=nontriv, sample=read_ndjson(files(ctx, tag)[1])[ncases // 2])
             if out["nonempty"] == 0:
                 raise Machinery("%s: the real Verify returned no chain in any case (vacuous)" % label)
@@ -260,9 +326,26 @@ def run(ctx):
     def zero_job():
         return zero_time(ctx, binary)
 
-    jobs = [pipeline(k, label, subst) for k, (label, subst) in enumerate(batches(ctx))] + [random_job, zero_job]
+    jobs = [pipeline(100 + k, label, None, mc=(names, keys, m))
+            for k, (label, names, keys, m) in enumerate(mc_batches(ctx)) if pkvlib.selected(label)]
+    jobs += [pipeline(k, label, subst) for k, (label, subst) in enumerate(batches(ctx)) if pkvlib.selected(label)]
+    jobs += [j for j, label in ((random_job, "random"), (zero_job, "zero-time")) if pkvlib.selected(label)]
     results = pkvlib.par(ctx, jobs)
     cands = []
+    # the run as a whole must follow ONE end-point convention (the zero-time job has its own, local verdict)
+    main = [o for o in results if o["label"] != "zero-time"]
+    okread = {"open", "closed"}
+    for o in main:
+        okread &= o["okread"]
+    if not okread and not any(c["sig"]["kind"] == "date-class-wrong-under-every-reading" for o in main for c in o["cands"]):
+        wo = next(o["datewit"]["open"] for o in main if "open" in o["datewit"])
+        wc = next(o["datewit"]["closed"] for o in main if "closed" in o["datewit"])
+        body = {"universe": list({u["id"]: u for u in wo[0]["universe"] + wc[0]["universe"]}.values()),
+                "cases": wo[0]["cases"] + wc[0]["cases"], "context": [], "zero": False,
+                "observed": wo[0]["observed"] + wc[0]["observed"]}
+        cands.append({"sig": {"kind": "date-class-inconsistent-end-points", "api": wo[2]}, "case": body,
+                      "what": "date-class-inconsistent-end-points: no single end-point convention explains both: %s; %s"
+                              % (wo[1], wc[1])})
     for out in results:
         cands += out["cands"]
         for n in out["notes"]:
